@@ -54,6 +54,9 @@ func rewriteExpr(e ast.Expr) ast.Expr {
 		for i := range x.Args {
 			x.Args[i] = rewriteExpr(x.Args[i])
 		}
+		if id, ok := x.Fun.(*ast.Ident); ok && id.Name == "verifWaitIdle" && len(x.Args) == 0 {
+			return call(sel("vsched", "WaitIdle"))
+		}
 		if id, ok := x.Fun.(*ast.Ident); ok && id.Name == "close" && len(x.Args) == 1 {
 			if _, isBuiltin := info.Uses[id].(*types.Builtin); isBuiltin {
 				return call(sel("vsched", "Close"), x.Args[0])
